@@ -266,6 +266,18 @@ def insertRowCloningOld (m : Matrix α) (row : Nat) (value : α) (panicAt : Opti
     | none => m.insertRow row value
   else ⟨m, some .explicit⟩
 
+/-! ### `Matrix::map_mut` / `map_mut_with_index` with a closure that panics -/
+
+/-- `Matrix::map_mut` / `map_mut_with_index` (and the `MatrixView` forms, row-major) with a closure
+    that panics on call `panicAt`: the elements visited before it are overwritten, the size and the
+    stored element count are untouched (the loop `mapLoop` over the row-major data, each element
+    paired with its position `n`, i.e. row `n / columns`, column `n % columns`). -/
+def matrixMapPanic (m : Matrix α) (f : α → Nat → Nat → α) (panicAt : Option Nat) : Matrix.Res α :=
+  let indexed := List.zip m.data (List.range m.data.length)
+  let r := mapLoop (fun (p : α × Nat) => (f p.1 (p.2 / m.columns) (p.2 % m.columns), p.2)) panicAt
+    indexed 0
+  ⟨{ m with data := r.1.map (·.1) }, if r.2 then some .explicit else none⟩
+
 /-! ### matrix constructors with a size check -/
 
 /-- `Matrix::empty(value, (rows, columns))`: `assert!(rows > 0 && columns > 0)`, then
